@@ -151,3 +151,26 @@ Example C15_example_fixed_decoders :
     = DecErr (XInvalidSize MAX_PONG_ZEROES 65535) /\
   decode utf8_valid alias_valid agent_valid (onion_tbl []) [0; 12; 0; 3; 0; 0; 0] = DecOk (MPong 3).
 Proof. repeat split; vm_compute; reflexivity. Qed.
+
+(* ---------------------------------------------------------------- the Refs codec (not a message) *)
+
+(* wire.rs also has a codec for storage::refs::Refs (BTreeMap<RefString, Oid>); no message
+   carries it.  It is NOT canonical: entries that are out of order, or that repeat a name,
+   are accepted by wire::deserialize::<Refs> and re-encode to different bytes (for any
+   UTF-8 / ref-name checks that accept the two names used).  Replayed on the real code by
+   the harness cases r:fixed:*. *)
+Theorem C15_refs_codec_not_canonical :
+  forall utf8_ok ref_ok : list N -> bool,
+    utf8_ok ref_a = true -> utf8_ok ref_b = true -> ref_ok ref_a = true -> ref_ok ref_b = true ->
+    bytes_ok refs_unsorted /\ bytes_ok refs_duplicate /\
+    decode_refs utf8_ok ref_ok refs_unsorted = RefsOk [(ref_a, rpt 20 1); (ref_b, rpt 20 2)] /\
+    enc_refs [(ref_a, rpt 20 1); (ref_b, rpt 20 2)] <> Some refs_unsorted /\
+    decode_refs utf8_ok ref_ok refs_duplicate = RefsOk [(ref_a, rpt 20 2)] /\
+    enc_refs [(ref_a, rpt 20 2)] <> Some refs_duplicate.
+Proof. exact refs_not_canonical. Qed.
+
+Example C15_example_refs_hypotheses :
+  utf8_valid ref_a = true /\ utf8_valid ref_b = true /\
+  (exists bs, enc_refs [(ref_a, rpt 20 1); (ref_b, rpt 20 2)] = Some bs /\
+     decode_refs utf8_valid (fun _ => true) bs = RefsOk [(ref_a, rpt 20 1); (ref_b, rpt 20 2)]).
+Proof. split; [reflexivity|]. split; [reflexivity|]. eexists. split; vm_compute; reflexivity. Qed.
